@@ -1218,6 +1218,12 @@ func c06R13(p *core.Prog, r *core.Report) {
 	const rule = "C06.R13"
 	r.Rule(rule, "a push always sets its index entry: in the layout's index updater the call of the index setter is not control-dependent on what the index lookup (indexGet) returns", 1)
 	ups := roleSet(p, ocidirRel, "OCIDir", "updateIndex")
+	if u, _ := indexUpdater(p); u != nil {
+		// (the updater's body may have been inlined into its caller: found by what it does)
+		for h := range core.Helpers(u, 2) {
+			ups[h] = true
+		}
+	}
 	n := 0
 	for _, fn := range sortedFuncs(ups) {
 		lab := labeler{}
